@@ -82,6 +82,8 @@ def run(ctx):
     target = ctx.n(48, 800)
     done = k = 0
     adaptive_records = []
+    assemble_records, assemble_errors = [], []
+    import assemble_model
     entry_list = []
     pick_rng = np.random.default_rng(20202)     # separate stream: the fixed sample below must stay the validated one
     shifted_left = ctx.n(6, 60)
@@ -125,6 +127,9 @@ def run(ctx):
                 clusters = shared.get_clusters(a, seed=seed)
             if len(adaptive_records) < 500:
                 adaptive_records.extend(prec.adaptive[:30])
+            if len(assemble_records) < ctx.n(60, 400):
+                assemble_records.extend(prec.assemble[:3])
+                assemble_errors.extend(prec.assemble_errors)
             if len(entry_list) < 200:
                 entry_list.extend(finder_helpers.entry_items(a, rec.system, pick_rng, desc["kind"]))
             dims = [c.get_dimensionality() for c in clusters]
@@ -162,6 +167,7 @@ def run(ctx):
                     {"kind": "failing-input", "case": b, "how": "SBC().get_clusters(atoms, seed=seed) with default parameters"})
     finder_helpers.check(ctx, broken, adaptive_records, entry_list)
     region_model.check(ctx, broken, region_rec.records)
+    assemble_model.check(ctx, broken, assemble_records, assemble_errors)
     if broken and not ctx.unknown_findings():
         ctx.finding("unproved", "conditional theorem no longer checks, no failing crystal found", {"kind": "broken-obligation", "broken": broken}, found_input=False)
     ctx.coverage["broken"] = [{"what": k_, "info": i} for k_, i in broken]
